@@ -23,6 +23,8 @@ THEOREMS = [
     "O2P.Gate.exactB_iff",
     "O2P.Gate.family_plain",
     "O2P.Gate.cover_spec",
+    "O2P.Gate.cover_sound",
+    "O2P.Gate.cover_sound_universe",
 ]
 
 
